@@ -29,7 +29,7 @@ META = {
 
 # (kind name, type ast, default, good raw, convertible raw or None, bad raw, extra spec)
 KINDS = [
-    ('req_int', 'int', None, 5, None, 'x', {}),
+    ('req_int', 'int', None, 5, True, 'x', {}),          # (conv: a bool is read like from_data reads it for an int field)
     ('def_int', 'int', ['value', '3'], 6, None, [1], {}),
     ('fac_list', ['list', 'int'], ['factory', 'list'], [1, 2], (3, 4), 'q', {}),
     ('fac_dict', ['dict', 'str', 'int'], ['factory', 'dict'], {'k': 1}, None, [1], {}),
